@@ -230,14 +230,99 @@ def _run(ctx, work):
             ctx.violation(('level-differs:' if base_ok and oi > 0 else '') + vd, trig + ('@' + o['cfg'] if base_ok and oi > 0 else ''),
                           {'program': c['text'], 'cfg': o['cfg'], 'verdict': vd, 'pos': pos, 'observed_event': ev,
                            'observed_outcome': o['outcome'], 'spec_status': v['status'], 'line': ln, 'all_verdicts': vds})
+    wcov = windows_stage(ctx, work, rng)
+    ctx.coverage.update(wcov)
     ctx.coverage.update({
-        'states': r.distinct + sum(v['steps'] for v in verdicts), 'transitions': r.generated + sum(v['steps'] for v in verdicts),
+        'states': r.distinct + sum(v['steps'] for v in verdicts) + wcov['window_states'], 'transitions': r.generated + sum(v['steps'] for v in verdicts),
         'traces_validated_against_impl': sum(len(c['obs']) for c in cases),
         'constant_expressions_enumerated': len(r.printed), 'constant_expressions_run': len(combos),
         'programs': len(cases), 'generated_programs': ngen, 'verdicts': stats, 'levels': ['O0', 'O1', 'O2', 'O3', 'O2g'],
         'exhaustive': not ctx.quick(),
         'samples': [{'program': cases[0]['text']}] if cases else [],
     })
+
+
+PEEP_CFG = 'SPECIFICATION Spec\nCONSTANT K = %d\nINVARIANT KindAgrees\nINVARIANT Report\nCHECK_DEADLOCK FALSE\n'
+
+
+def _window_job(job):
+    from lib import peep
+    wid, kind, w = job
+    plain, opt = peep.both_runs(kind, w)
+    return {'id': wid, 'w': w, 'plain': plain, 'opt': opt, 'same': json.dumps(plain, sort_keys=True) == json.dumps(opt, sort_keys=True), 'kind': kind}
+
+
+def window_sig(w):
+    return ','.join(e['b'] + e['t'] + (':' + e['rel'] if e['rel'] else '') for e in w)
+
+
+def windows_stage(ctx, work, rng):
+    """C02 (ii): the optimiser's peephole rules on every admissible instruction window (Peephole.tla)"""
+    K = ctx.pick(3, 4)
+    r = tlc.run_tlc('MC_Peephole', PEEP_CFG % K, workers=8, timeout=3000, heap='10g')
+    if r.error or r.invariant:
+        raise Machinery('MC_Peephole: %s %s' % (r.invariant, (r.error or '')[:1200]))
+    wins = [(x['w'], x['t']) for x in r.printed]
+    # longer windows: a sample
+    r2 = tlc.run_tlc('MC_Peephole', PEEP_CFG % (K + 2), workers=1, simulate=ctx.pick(1500, 40000), depth=K + 3, seed=ctx.seed, timeout=2000, heap='6g')
+    if r2.error or r2.invariant:
+        raise Machinery('MC_Peephole walks: %s %s' % (r2.invariant, (r2.error or '')[:1200]))
+    deep = [(x['w'], x['t']) for x in r2.printed if len(x['w']) > K]
+    rng.shuffle(deep)
+    seen = set()
+    jobs = []
+    for w, t in wins + deep[:ctx.pick(3000, 60000)]:
+        key = json.dumps(w, sort_keys=True)
+        if key in seen:
+            continue
+        seen.add(key)
+        jobs.append((len(jobs), t, w))
+        if t == 'I':
+            jobs.append((len(jobs), 'IF', w))
+    obs = par.pmap(_window_job, jobs, chunk=50)
+    verd = {}
+    SH = 8000
+    for si in range(0, len(obs), SH):
+        opath = os.path.join(work, 'win-%d.json' % si)
+        tlc.write_json(opath, [{k: o[k] for k in ('id', 'w', 'plain', 'opt', 'same')} for o in obs[si:si + SH]])
+        tr = tlc.run_tlc('Trace_Peephole', 'SPECIFICATION Spec\nCHECK_DEADLOCK FALSE\n', env={'OBS': opath}, workers=1, timeout=1700, heap='4g')
+        if tr.error:
+            raise Machinery('Trace_Peephole: ' + tr.error[:1200])
+        for x in tr.printed:
+            verd[x['id']] = x['r']
+        os.unlink(opath)
+    if len(verd) != len(obs):
+        raise Machinery('Trace_Peephole: %d verdicts for %d windows' % (len(verd), len(obs)))
+    stats = {}
+    for o in obs:
+        v = verd[o['id']]
+        for which in ('plain', 'opt'):
+            stats['%s:%s' % (which, v[which])] = stats.get('%s:%s' % (which, v[which]), 0) + 1
+        bad = None
+        if v['opt'] not in ('ok', 'oom'):
+            bad = 'window-optimised:' + v['opt']
+        elif v['plain'] not in ('ok', 'oom'):
+            bad = 'window-plain:' + v['plain']
+        elif not v['same']:
+            bad = 'window:optimisation-changes-behaviour'
+        if bad:
+            ctx.violation(bad, window_sig(o['w']) + ('@IF' if o['kind'] == 'IF' else ''),
+                          {'window': o['w'], 'slot': o['kind'], 'plain': o['plain'], 'optimised': o['opt'], 'verdict': v})
+    # binding demonstration: a run with another value must be rejected
+    demo = None
+    for o in obs:
+        if verd[o['id']]['opt'] == 'ok' and o['opt']['val'][0] in ('I', 'L'):
+            demo = json.loads(json.dumps({k: o[k] for k in ('id', 'w', 'plain', 'opt', 'same')}))
+            demo['opt']['val'][1] += 1
+            break
+    if demo is not None:
+        opath = os.path.join(work, 'win-demo.json')
+        tlc.write_json(opath, [demo])
+        tr = tlc.run_tlc('Trace_Peephole', 'SPECIFICATION Spec\nCHECK_DEADLOCK FALSE\n', env={'OBS': opath}, workers=1, timeout=600)
+        if tr.error or not tr.printed or tr.printed[0]['r']['opt'] == 'ok':
+            raise Machinery('window binding demonstration failed')
+    return {'window_states': r.distinct, 'windows_exhaustive_len': K, 'windows_enumerated': len(wins), 'windows_deeper': len(jobs) - len(wins),
+            'window_runs': 2 * len(obs), 'window_verdicts': stats}
 
 
 def replay(ctx, case):
